@@ -3,11 +3,15 @@
 package main
 
 import (
+	"bytes"
 	"fmt"
+	"github.com/ethereum/go-ethereum/p2p/enode"
+	"github.com/holiman/uint256"
 	"math/rand"
 	"net"
 	"strconv"
 	"strings"
+	"time"
 
 	"github.com/ethereum/go-ethereum/p2p/enr"
 	"github.com/zen-eth/shisui/portalwire"
@@ -195,4 +199,56 @@ func runC19(o *Out, r *rand.Rand, thorough bool, _ []string) {
 		nd.stop()
 	}
 
+}
+
+func init() { runners["offerafterfail"] = runOfferAfterFail }
+
+// runOfferAfterFail: "OFFER/ACCEPT exchanges ... succeed between every pairing that shares a version" - also AFTER negotiations
+// with other peers have failed. Node a (versions 0,1; two transfer slots; offer workers running) is handed, the way its gossip
+// path hands them, offers for peers it shares no version with (another version, an empty list, an undecodable entry); then it
+// gossips one item to b, which shares {0,1} (or {0}, or {1}): the item arrives at b.
+func runOfferAfterFail(o *Out, r *rand.Rand, thorough bool, _ []string) {
+	const limit = 2
+	for pi, vb := range [][]uint8{{0, 1}, {0}, {1}} {
+		mn := newMemNet()
+		a := startNode(mn, r, nodeOpts{ip: net.IP{34, 12, 1, byte(1 + pi)}, port: 9860, versions: []uint8{0, 1}, utpLimit: limit})
+		b := startNode(mn, r, nodeOpts{ip: net.IP{34, 12, 2, byte(1 + pi)}, port: 9861, versions: vb, utpLimit: limit})
+		a.p.AddEnr(b.p.Self())
+		b.p.AddEnr(a.p.Self())
+		_, _ = a.p.VerifPing(b.p.Self())
+		max, _ := new(uint256.Int).SetAllOne().MarshalSSZ()
+		a.p.VerifRadiusCacheSet(b.p.Self().ID(), max)
+		fails := 0
+		strangers := []*enode.Node{
+			signRecPv(keyFromSeed(r), net.IP{34, 12, 3, 1}, 7400, 1, []uint8{3}),
+			signRecPv(keyFromSeed(r), net.IP{34, 12, 3, 2}, 7400, 1, []uint8{}),
+			peerNode(r, nil, badPv{1, 2}),
+			signRecPv(keyFromSeed(r), net.IP{34, 12, 3, 4}, 7400, 1, []uint8{2, 7}),
+		}
+		for _, x := range strangers {
+			permit, ok := a.p.Utp.GetOutboundPermit()
+			if !ok {
+				break
+			}
+			req := &portalwire.OfferRequest{Kind: portalwire.TransientOfferRequestKind, Request: &portalwire.TransientOfferRequest{
+				Contents: []*portalwire.ContentEntry{{ContentKey: []byte{1, 2, byte(fails)}, Content: genBytes(30, fails)}}}}
+			if _, err := a.p.VerifOffer(x, req, permit); err != nil {
+				fails++
+			}
+		}
+		key := []byte(fmt.Sprintf("after-fail-%d", pi))
+		val := genBytes(2000, pi)
+		_, _ = a.p.Gossip(nil, [][]byte{key}, [][]byte{val})
+		delivered := 0
+		select {
+		case el := <-b.queue:
+			if len(el.Contents) == 1 && bytes.Equal(el.Contents[0], val) {
+				delivered = 1
+			}
+		case <-time.After(8 * time.Second):
+		}
+		o.Case(fmt.Sprintf("offerafterfail vb=%s fails=%d limit=%d", csv(vb), fails, limit), fmt.Sprintf("delivered=%d", delivered))
+		a.stop()
+		b.stop()
+	}
 }
